@@ -18,6 +18,7 @@ Step(name) == l <= Last(sc) /\ Ev.ev = name /\ l' = l + 1 /\ sc' = sc
 New  == Step("New") /\ ~s.alive /\ s' = [s EXCEPT !.alive = TRUE]
 Fake == Step("Fake") /\ s.alive /\ Ev.ok /\ s' = [s EXCEPT !.faked[Ev.a] = Ev.v]
 Drop == Step("Drop") /\ s.alive /\ Ev.live = 0 /\ s' = S0
+PanicDrop == Step("PanicDrop") /\ s.alive /\ Ev.live = 0 /\ Ev.lock # 1 /\ s' = S0
 
 Await ==
   /\ Step("Await")
@@ -32,7 +33,7 @@ AsyncMismatch == Step("AsyncMismatch") /\ Ev.refused /\ Ev.cls = "sig-mismatch" 
 ChildExit == Step("ChildExit") /\ Ev.signal = 0 /\ Ev.code = 0 /\ s' = s
 Other == l <= Last(sc) /\ Ev.ev \in {"Mmap", "Munmap", "Mprotect", "Write", "Flush", "Note"} /\ l' = l + 1 /\ sc' = sc /\ s' = s
 
-TraceNext == New \/ Fake \/ Drop \/ Await \/ Shape \/ AsyncMismatch \/ ChildExit \/ Other
+TraceNext == New \/ Fake \/ Drop \/ PanicDrop \/ Await \/ Shape \/ AsyncMismatch \/ ChildExit \/ Other
 TraceSpec == TraceInit /\ [][TraceNext]_tvars
 Track == TrackProgress(sc, l)
 Post == PrintProgress
